@@ -15,6 +15,7 @@ R5 sufficiency: adder int >= max(i1, i2) + 1, frac >= max(f1, f2), sign =
    s1 | s2 (all widths; po2 operands through their exponent range); the Add /
    Maximum merges likewise on every path.
 """
+import itertools
 from fractions import Fraction as F
 
 from ..loader import AnalysisError
@@ -134,8 +135,7 @@ def rule_adder(rep, repo):
                 "adder-insufficient-%s-bits" % what,
                 "%s: output %s bits = %s, a sum needs %s; counterexample %s"
                 % (cfg, what, show(have), show(need), ta.show_env(wit)),
-                instance=cfg, observed="%s bits = %s" % (what, show(have)),
-                facts={"verdict": verdict})
+                instance=cfg, facts={"verdict": verdict})
     if (k2, k1) in results:
       o2 = results[(k2, k1)][3].attrs.get("output")
       b2 = ta.field(o2, "bits", fw).subst(SWAP, simplify_app)
@@ -256,6 +256,37 @@ def rule_accumulator(rep, repo):
           rep.sample({"call": cfg, "bits": show(bits), "int_bits": show(ib)})
 
 
+def _deficit_profile(records):
+  """(points short, worst deficit, points) of `have >= need` over a fixed
+  small grid of operand widths, for path records (literals, have, needs):
+  a fingerprint of the computed function that does not depend on how the
+  code branches."""
+  names = set()
+  for lits, have, needs_ in records:
+    for nf_ in [have] + list(needs_) + [L for L, _ in lits]:
+      names |= {a[1] for a in nf_.atoms() if a[0] == "sym"}
+  names = sorted(names)
+  grid = {"b": (2, 3, 5), "i": (0, 1, 3), "f": (0, 1, 3)}
+  doms = [grid.get(n[0], (1, 2, 3)) for n in names]
+  short, worst, pts = 0, F(0), 0
+  for vals in itertools.product(*doms):
+    env = dict(zip(names, vals))
+    for lits, have, needs_ in records:
+      try:
+        if lits and not ta.holds(lits, env):
+          continue
+        h = ta.nf_eval(have, env)
+        d = max(ta.nf_eval(n_, env) - h for n_ in needs_)
+      except (KeyError, ZeroDivisionError):
+        continue
+      pts += 1
+      if d > 0:
+        short += 1
+        worst = max(worst, d)
+      break
+  return short, worst, pts
+
+
 def rule_merge(rep, repo):
   mg = repo.module(MG)
   fw = Fwd()
@@ -265,7 +296,9 @@ def rule_merge(rep, repo):
     unit = "%s::%s" % (mg.relpath, cname)
     rep.unit(unit)
     for k1, k2 in (("fixed_s", "fixed_s"), ("fixed_s", "fixed_u"),
-                   ("fixed_u", "fixed_u")):
+                   ("fixed_u", "fixed_u"), ("po2_s", "fixed_s"),
+                   ("fixed_s", "po2_s"), ("po2_u", "fixed_u"),
+                   ("fixed_s", "po2_u")):
       cfg = "%s([%s, %s])" % (cname, k1, k2)
 
       def run(fork, k1=k1, k2=k2, cname=cname):
@@ -273,13 +306,15 @@ def rule_merge(rep, repo):
         pe.fork = fork
         q1 = ta.make_operand(pe, repo, k1, "1", by_fraction=True)
         q2 = ta.make_operand(pe, repo, k2, "2", by_fraction=True)
-        q1.attrs["name"] = "quantized_bits"
-        q2.attrs["name"] = "quantized_bits"
+        for q_, k_ in ((q1, k1), (q2, k2)):
+          if k_.startswith("fixed"):
+            q_.attrs["name"] = "quantized_bits"
         m = pe.call(pe.lookup_global(cname, mg), [[(q1, None), (q2, None)]],
                     {})
         return pe, q1, q2, m
       paths = explore(run)
       npaths = 0
+      records = {"int": [], "frac": []}
       for path, res in paths:
         if isinstance(res, Exception):
           rep.fail("R5", unit, "merge-raises", "%s raises %s on a path" %
@@ -297,24 +332,33 @@ def rule_merge(rep, repo):
         rep.check(sg == (s1 | s2), "R5", unit, "merge-sign-rule",
                   "%s: output sign %d for operand signs (%d,%d)" %
                   (cfg, sg, s1, s2), instance=cfg)
-        for what, have, n1, n2 in (
-            ("int", ib, ta.field(q1, "int_bits", fw),
-             ta.field(q2, "int_bits", fw)),
-            ("frac", fo, ta.frac_bits(q1, fw), ta.frac_bits(q2, fw))):
+        ni1, nf1 = needs(q1, pe, fw)
+        ni2, nf2 = needs(q2, pe, fw)
+        for what, have, n1, n2 in (("int", ib, ni1, ni2),
+                                   ("frac", fo, nf1, nf2)):
           extra = grow if what == "int" else 0
-          for need in (n1 + extra, n2 + extra):
+          records[what].append((lits, have, [n1 + extra, n2 + extra]))
+      for what in ("int", "frac"):
+        first = None
+        for lits, have, needs_ in records[what]:
+          for need in needs_:
             verdict, wit = ta.prove_ge(have, need, DOM, lits)
-            rep.check(verdict != "refuted", "R5", unit,
-                      "merge-insufficient-%s-bits" % what,
-                      "%s: on the path where %s the output has %s bits = %s "
-                      "but an operand needs %s; counterexample %s" %
-                      (cfg, " and ".join("%s%s0" % (show(d, 40), ">" if st
-                                                   else ">=")
-                                         for d, st in lits) or "true", what,
-                       show(have), show(need), ta.show_env(wit)),
-                      instance=cfg, observed="%s bits = %s" % (what,
-                                                               show(have)),
-                      facts={"verdict": verdict})
+            if verdict == "refuted" and first is None:
+              first = (lits, have, need, wit)
+        # what is wrong, independent of how the code branches: on a small
+        # fixed grid of operand widths, how many points are short of bits
+        # and by how much at most
+        short, worst, pts = _deficit_profile(records[what])
+        rep.check(first is None, "R5", unit,
+                  "merge-insufficient-%s-bits" % what,
+                  "%s: the output has %s bits = %s where an operand needs "
+                  "%s; counterexample %s (on the grid of operand widths %d "
+                  "of %d points are short, by at most %s bits)" %
+                  ((cfg, what, show(first[1]), show(first[2]),
+                    ta.show_env(first[3]), short, pts, worst)
+                   if first else (cfg, what, "", "", "", 0, pts, 0)),
+                  instance=cfg, observed="%d of %d grid points short of %s "
+                  "bits, by at most %s" % (short, pts, what, worst))
       rep.extra.setdefault("merge_paths", {})[cfg] = npaths
 
 
